@@ -28,7 +28,13 @@ CFG = {'long_max_vertices': 150,   # the exact oracle is quadratic in the vertex
                    "GeoProofs/Lemmas/RELMTotal1.lean", "GeoProofs/Lemmas/RELMTotal2.lean", "GeoProofs/Lemmas/RELMTotal3.lean",
                    "GeoProofs/Lemmas/RELMTotal4.lean", "GeoProofs/Lemmas/RELMTotal5.lean",
                    "GeoProofs/Lemmas/RELM2Node.lean", "GeoProofs/Lemmas/RELM2Areal.lean", "GeoProofs/Lemmas/RELM2Locate.lean",
-                   "GeoProofs/Lemmas/RELM2Linear.lean", "GeoProofs/Lemmas/RELM2Dom.lean", "GeoProofs/Lemmas/RELM2Disjoint.lean", "GeoProofs/Lemmas/RELM2Ring.lean"],
+                   "GeoProofs/Lemmas/RELM2Linear.lean", "GeoProofs/Lemmas/RELM2Dom.lean", "GeoProofs/Lemmas/RELM2Disjoint.lean", "GeoProofs/Lemmas/RELM2Ring.lean",
+                   "GeoProofs/Lemmas/RELM3Simple.lean", "GeoProofs/Lemmas/RELM3LineString.lean", "GeoProofs/Lemmas/RELM3Nodes.lean",
+                   "GeoProofs/Lemmas/RELM3Multi.lean", "GeoProofs/Lemmas/RELM3Dom.lean", "GeoProofs/Lemmas/RELM3Coll.lean",
+                   "GeoProofs/Lemmas/RELM3Areal.lean", "GeoProofs/Lemmas/RELM3Star.lean", "GeoProofs/Lemmas/RELM3ExtNodes.lean",
+                   "GeoProofs/Lemmas/RELM3Ext.lean", "GeoProofs/Lemmas/RELM3ExtSpec.lean", "GeoProofs/Lemmas/RELM3Full.lean",
+                   "GeoProofs/Lemmas/RELM3ArealExt.lean", "GeoProofs/Lemmas/RELM3ArealFull.lean", "GeoProofs/Lemmas/RELM3Poly.lean",
+                   "GeoProofs/Lemmas/RELM3MPoly.lean", "GeoProofs/Lemmas/RELM3PointMP.lean", "GeoProofs/Lemmas/RELM3LineLine.lean"],
     "rule": "ordered pairs (A, B) over all 10 geometry types (Geometry enum on both sides) drawn from one shared 3..6 grid: polyomino polygons with "
             "holes (incl. holes tangent to the shell), star polygons, rectangles with holes, corner-touching multipolygons, self-avoiding lattice "
             "paths, multi line strings sharing end points (mod-2 rule), half-grid points, same-dimension collections; each case also relates the "
@@ -50,7 +56,8 @@ CFG = {'long_max_vertices': 150,   # the exact oracle is quadratic in the vertex
         "list-backed iterators (next = head, find = dropWhile of the negated predicate), unreachable!() arms = Empty (dead code; panics are seen by the harness)",
         "spec adequacy (S1): the arrangement atoms (vertices, elementary-edge midpoints, two infinitesimally displaced face samples per edge) meet "
         "every cell of the arrangement of A ∪ B — not proved; the spec is an independent definition (own winding computation, symbolic infinitesimals)",
-        "spec adequacy (S2): for a valid ring, non-zero winding number ⇔ topological interior (Jordan)",
+        "spec adequacy (S2): for a valid ring, non-zero winding number ⇔ topological interior (Jordan) — individual consequences are theorems "
+        "(a valid polygon has an interior face sample in every arrangement: polygon_interior_sample_valid)",
         "interior connectedness of polygons is not part of the executable validity predicate",
         "model of the implementation (RelateImpl*.lean, GeomGraph.lean): hand-written from relate_operation.rs, edge_end_builder.rs, geomgraph/*.rs, "
         "geomgraph/index/*.rs; checked against the real code on every run (C01.impl), not generated from it. It tests all segment pairs where the code asks "
@@ -170,14 +177,66 @@ MANIFEST = {
             "(relateImpl_point_rows_eq_spec_of_nodes, relateImpl_point_rows_eq_spec_dom_partial), and columns Interior / Boundary of relate(B, Point p) "
             "through the two transpose laws (relateImpl_point_cols_eq_spec_dom_partial); on both paths of compute_intersection_matrix given DimsSpec of B "
             "(relateImpl_point_rows_eq_spec_both_paths_partial); a closed LineString (a ring written as a line string, simple or not): no self-check, "
-            "nothing recorded, start vertex Inside by the mod-2 rule, rows = specification (relateImpl_point_rows_eq_spec_closedLineString). Open there: B an open LineString / MultiLineString / "
-            "GeometryCollection (self-noding of a simple line string records nothing; mod-2 node labels vs the specification's end point count; graph of "
-            "disjoint members), and the Exterior row / column. The disjoint-envelope shortcut on the whole validity domain, polygons with holes "
+            "nothing recorded, start vertex Inside by the mod-2 rule, rows = specification (relateImpl_point_rows_eq_spec_closedLineString). "
+            "(11) RELM3: self-noding of a simple open line string records nothing — consecutive segments meet in one point, discarded by "
+            "is_trivial_intersection; every other pair has line_intersection = None by lineStringSimple, li_symm for the pairs visited in the other order "
+            "(selfNoding_simple_lineString_records_nothing, any arithmetic); the node map of an operand has pairwise distinct coordinates "
+            "(impl_mls_node_coordinates_distinct), so C17 mod2_rule speaks about every node; the nodes of the self-noded graph of a LINEAR operand "
+            "(Line, LineString, MultiLineString, collections of them) carry the specification's location whatever the way the members meet "
+            "(impl_nodes_carry_locate_linear: mod-2 label = parity of the specification's end-point count, a closed member counting 0 there and 2 in the "
+            "graph; recorded intersections are valid records of their edges, get Inside only where they are not boundary nodes, and every end point is a "
+            "node already); collections of linear / of point members build the graph of the flattened MultiLineString / MultiPoint and the specification "
+            "flattens them the same way. Hence rows Interior / Boundary of relate(Point p, B) = specification at EVERY p for EVERY type of B of the domain "
+            "— open and closed LineString, MultiLineString INCLUDING the K9 points (a common end point of several members is a node of the graph, so relate "
+            "never asks coordinate_position there), collections of linear, of point or of areal members (relateImpl_point_rows_eq_spec_allTypes_partial, hypothesis "
+            "pointRowsOk5 = not a collection, or a collection all of whose members are of one kind; areal members: the OnBoundary-nodes-on-rings "
+            "invariant passes through add_geometry, and a ring point of one member is not strictly inside another because collectionOk makes the cells "
+            "II/IB/BI/BB of every pair F while cell_of_located makes the cell of a common arrangement point non-F: impl_nodes_carry_locate_arealCollection), the columns of relate(B, Point p) "
+            "(relateImpl_point_cols_eq_spec_allTypes_partial) and both paths given DimsSpec (relateImpl_point_rows_eq_spec_allTypes_both_paths_partial). "
+            "HasDimensions = row maxima of the specification (DimsSpec) follows from validity for every type but Polygon / MultiPolygon / collection "
+            "(dimsSpec_dom_partial), so the shortcut returns the specification's whole matrix and the rows hold on both paths without a DimsSpec "
+            "hypothesis there (relateImpl_disjoint_eq_spec_noPolygon_partial, relateImpl_point_rows_eq_spec_noPolygon_partial). "
+            "(12) The Exterior row for linear B, hence the WHOLE matrix: in the model of the implementation every edge of B stays isolated "
+            "(selfNoded_edges_isolated) and contributes (1, E, I); every bundle of every star of line edge ends is labelled Inside in B's slot, no side to "
+            "propagate, no collapse; OnBoundary in B's slot of the node map is written by copy_nodes_and_labels only, so EI = 1 iff B has an edge and "
+            "EB = 0 iff B's graph has a boundary node away from p (relateImpl_point_exterior_row_lineEdges, any arithmetic, B valid or not); in the "
+            "specification EI = 1 iff B has a non-degenerate segment and EB = 0 iff some point other than p is located on B's boundary "
+            "(relateSpec_point_linear_exterior_row: an elementary midpoint is not a vertex, hence not p and not an end point; a boundary point is an end "
+            "point, hence a vertex); joined by impl_nodes_carry_locate_linear: relate(Point p, B) = relateSpec (Point p) B, all nine cells, on the graph "
+            "path for every linear B of the domain with an edge, collections included (relateImpl_point_linear_graph_eq_spec), on both paths for B a Line, "
+            "LineString or MultiLineString (relateImpl_point_lineType_eq_spec_partial), and for the total function in both operand orders, relate never "
+            "panicking there (relateImpl_point_lineType_eq_spec_total_partial) — the first full-matrix equalities beyond point-like operands. "
+            "(13) Areal B: every edge of B is a ring edge area(OnBoundary, l, r) with {l, r} = {Inside, Outside}, isolated from the point, contributing "
+            "(1,E,B), (2,E,I), (2,E,E); the bundles of the stars get full area labels whose sides are Inside / Outside (compute_label_side returns nothing "
+            "else), nothing for fill-in: EI = 2, EB = 1 (relateImpl_point_exterior_row_ringEdges, any arithmetic, B valid or not); on the specification side a "
+            "row maximum of dimension >= 1 is attained in the column Exterior against a point operand, so EI = dim B and EB = dim dB from DimsSpec "
+            "(relateSpec_point_exterior_row_of_dimsSpec). DimsSpec itself for EVERY valid polygon: HasDimensions = 2 for a simple shell (polyDims_valid) and an "
+            "interior face sample in every arrangement from C02X valid_side_inside (polygon_interior_sample_valid) — S2 for valid polygons is now a theorem — "
+            "and for every valid MultiPolygon and the empty ones (dimsSpec_dom_noCollection_partial): the disjoint-envelope shortcut returns the "
+            "specification's matrix for ALL operands of the domain that are not collections, no hypothesis left "
+            "(relateImpl_disjoint_eq_spec_noCollection_partial). Together: relateImpl (Point p) B = relateSpec (Point p) B and relateImpl B (Point p) = "
+            "relateSpec B (Point p), whole matrix, total function, for B a Line, LineString, MultiLineString, Polygon (holes touching the shell included), "
+            "MultiPolygon (touching members included), Rect or Triangle of the domain, no further hypothesis "
+            "(relateImpl_point_eq_spec_extendedType_partial). "
+            "(14) Point x MultiPoint, whole matrix (relateImpl_point_multiPoint_graph: no edge; the nodes of B away from p contribute (0,E,I)); hence "
+            "relateImpl (Point p) B = relateSpec (Point p) B and relateImpl B (Point p) = relateSpec B (Point p) for EVERY B of the validity domain that is "
+            "not a GeometryCollection, the only hypothesis being the property's own domain (relateImpl_point_eq_spec_noCollection_partial). "
+            "(15) Specification, linear x linear (any two lists of curves): every cell with a boundary in it (IB, BI, BB, BE, EB) is 0 exactly when some "
+            "point has that pair of locations, F otherwise (relateSpec_linear_boundary_cells); Line x Line: BB, IB, BI, BE, EB in closed form "
+            "(relateSpec_line_line_boundary_cells), and IE = 1 iff some point of the open first segment is off the second, never 0 — such a point is not a "
+            "vertex of the arrangement, the midpoint of its elementary sub-segment has the same two locations (C02X locate_const) — EI transposed, EE = 2 "
+            "(relateSpec_line_line_exterior_cells): with II all nine cells of the specification for two segments are characterised by point-set "
+            "conditions (cell_complete for Line x Line). "
+            "Collections of linear members or of point members, nested ones included: the whole matrix on the graph path "
+            "(relateImpl_point_collection_graph_eq_spec_partial; a linear collection with a bounding rectangle has an edge). "
+            "Open there: GeometryCollections on the shortcut path and areal collections (DimsSpec of a collection: pairwise disjoint members, boundary "
+            "dimension as a maximum over members); collections mixing kinds only occur with empty members. The disjoint-envelope shortcut on the whole validity domain, polygons with holes "
             "included: 'hole coordinates in the reported rectangle' and 'rings closed' follow from validity (C02X dom_facts), so relateImpl = relateSpec "
             "for domain operands with non-intersecting rectangles wherever HasDimensions agrees with the specification "
             "(relateImpl_disjoint_eq_spec_dom_partial; remaining hypothesis DimsSpec: interior face sample of a valid polygon, collections). "
-            "Not proved: relateImpl = relateSpec for Line x Line, LineString x LineString and beyond (needs the full specification matrix of two "
-            "segments beyond the cell II and an order-independent evaluation of the node map / stars for symbolic coordinates).",
+            "Not proved: relateImpl = relateSpec when neither operand is a point: Line x Line, LineString x LineString and beyond (the specification side of Line x Line is "
+            "complete; needs the mutual-intersection phase of the algorithm — proper crossings, edge splitting, stars with edge ends of both operands — "
+            "against the arrangement vertices).",
     "note": "Trusted: Lean kernel + audited axioms; the harness/generators (sampling); spec adequacy S1/S2. Defects found by this check and repaired in /repo: "
             "Triangle vertical edge (29720670), MultiPolygon shared vertex (5f41a6da), MultiLineString boundary_dimensions mod-2 (17c66966). The algorithm of "
             "relate is now modelled (relateImpl) and compared with the code on valid and invalid operands; K10 as seen from relate (subnormal coordinate: two "
